@@ -112,6 +112,15 @@ Theorem C02_independent_heap : forall (A D : Type) (sem : code -> D -> A -> opti
 Proof. intros. eapply hrun_independent0; eassumption. Qed.
 Print Assumptions C02_independent_heap.
 
+(* the same, as a statement about the observed history (the relation the comparator's clause 24 decides):
+   in ANY history run on the heap model, two reads of the same reader with the same index give the
+   same answer, whatever happened in between *)
+Theorem C02_history_stable : forall (A D : Type) (sem : code -> D -> A -> option A) (dsem : code -> D -> option D)
+    (rows : item -> option (list (list A))) (d0 : D) (cmds : list cmd) (h : heap) (os : list (@out A D)),
+  hrun sem dsem rows d0 h_append_op cmds heap0 = Some (h, os) -> Stable (combine cmds os).
+Proof. intros. eapply hrun_stable; eassumption. Qed.
+Print Assumptions C02_history_stable.
+
 (* derivation trees: every answer of a history run on the heap model is the reference answer -- the
    expression the reader denotes (by its derivation path) applied to the whole recording, then indexed --
    whenever that reference exists (NumPy does not raise on the whole recording) *)
